@@ -121,6 +121,17 @@ def history(rnd, first_id, nev=14):
             except Exception as e:  # noqa: BLE001
                 ev.update(status=codec.classify(e), v=codec.NONE_V, pos=0, exc=f"{type(e).__name__}: {e}"[:120])
             events.append(ev)
+        elif (not use_struct) and form is None and isinstance(T, type) and issubclass(T, int) and rnd.random() < 0.5:
+            # an integer chosen at the boundaries of the 7- and 8-bit groupings, written without having been read first: it is
+            # encoded (and must then be the encoding the specification gives) or refused (and must then not fit)
+            k = rnd.choice([6, 7, 8, 13, 14, 15, 16, 20, 21, 24, 31, 32, 35, 48, 56, 63, 64])
+            val = rnd.choice([1, -1]) * ((1 << k) + rnd.choice([-2, -1, 0, 0, 1, rnd.randrange(0, 1 << k)])) if rnd.random() < 0.85 else rnd.choice([0, -1, 1])
+            ev = dict(base, ev="Write", v=absyn.pint(val))
+            try:
+                ev.update(status="ok", b=list(T.dumps(val)))
+            except Exception as e:  # noqa: BLE001
+                ev.update(status="error", b=[], exc=f"{type(e).__name__}: {e}"[:120])
+            events.append(ev)
         else:
             v, p = last[key]
             misfit = (not use_struct) and form is None and p.get("k") == "int" and rnd.random() < 0.3
@@ -184,6 +195,19 @@ class ScalarCheck:
                     events.append(ev)
                     rid += 1
                     coverage.add(name)
+                if isinstance(T, type) and issubclass(T, int):
+                    # boundary integers written directly (encoded as specified, or refused because they do not fit)
+                    vals = {0, 1, -1}
+                    for k in ((6, 7, 13, 14, 20, 21, 63, 64) if T.size is None else (8 * T.size - 1, 8 * T.size)):
+                        vals |= {1 << k, (1 << k) - 1, (1 << k) + 1, -(1 << k), -(1 << k) - 1, -(1 << k) + 1}
+                    for val in sorted(vals) if (thorough or T.size is None) else rnd.sample(sorted(vals), min(len(vals), 8)):
+                        ev = {"id": rid, "ev": "Write", "name": name, "align": False, "ptr": 8, "v": absyn.pint(val)}
+                        try:
+                            ev.update(status="ok", b=list(T.dumps(val)))
+                        except Exception as ex:  # noqa: BLE001
+                            ev.update(status="error", b=[], exc=f"{type(ex).__name__}: {ex}"[:120])
+                        events.append(ev)
+                        rid += 1
         rep.extra["builtin_names_covered"] = len(coverage)
         judged = [e for e in events if "id" in e]
         rep.evaluations += len(judged)
